@@ -140,6 +140,13 @@ def handle (s : S) (i : Nat) (j : Json) : S × List Json :=
           (if op == "govparams" && ok && healthy && iRate < pv.rate then
             [verdictViol i "C07.others_unharmed" (Json.mkObj [("op", op), ("rateBefore", mkInt pv.rate), ("rateAfter", mkInt iRate),
               ("tvBefore", mkInt pv.tv), ("tvAfter", mkInt iSt.tv)])] else []) ++
+          -- C07.redeem_fair: shares are redeemed at no more than their share of what the vault really has — its cash plus the loans
+          -- outstanding (principal + unpaid interest) —, whatever value the vault states (allowance: the 18-digit rounding of the rate, i.e.
+          -- 10⁻¹⁸ per share, plus two base units)
+          (let assets := s.model.cash + s.model.borrowed + s.model.stacked - s.model.paid
+           if op == "unbond" && ok && pv.supply > 0 && dbal * pv.supply > amt * assets + pv.supply * (2 + amt / 1000000000000000000) then
+            [verdictViol i "C07.redeem_fair" (Json.mkObj [("shares", mkInt amt), ("payout", mkInt dbal), ("supplyBefore", mkInt pv.supply),
+              ("cashBefore", mkInt s.model.cash), ("loansBefore", mkInt (s.model.borrowed + s.model.stacked - s.model.paid)), ("statedValueBefore", mkInt pv.tv)])] else []) ++
           -- C07.cap: an accepted borrow respects 10·(TV − cash + amt) ≤ 9·TV on the numbers before it, and
           -- afterwards outstanding ≤ 0.9·TV' up to the interest accrued inside the call
           (if op == "borrow" && ok &&
